@@ -5,12 +5,14 @@ import numpy as np
 import pints
 
 import core
+import refsim
 import toy
 
 REQUIRED_THEOREMS = [
     'C08_history_independent', 'C08_eval_substitution', 'C08_grad_restriction', 'C08_names',
     'C08_counts', 'C08_order_independent', 'C08_release_restores', 'C08_buffer_garbage_irrelevant',
-    'C08_composite', 'C08_resized_history', 'C08_resized_observables', 'C08_resize_positional_counterexample']
+    'C08_composite', 'C08_resized_history', 'C08_resized_observables', 'C08_resize_positional_counterexample',
+    'C08_sim_protocol_kept', 'C08_sens_columns_are_free', 'C08_sens_columns_count', 'C08_sim_slips_counterexample']
 RULE = ('random histories (length 0-12; thorough: also all histories of length <=3 over a small alphabet) '
         'of fix / re-fix / release dictionaries on every reducible object (Reduced error / mechanistic / '
         'population models, LogLikelihood, PredictiveModel, PopulationPredictiveModel); after every '
@@ -20,13 +22,20 @@ RULE = ('random histories (length 0-12; thorough: also all histories of length <
         'models around heterogeneous blocks (any position, 1-4 sub-models) in which the number of modelled '
         'individuals changes between the calls (set_n_ids, HierarchicalLogLikelihood over the model, controller '
         'receiving the model; also renamed dimensions): after every event compared with a FRESH unfixed model '
-        'at the net dictionary; non-trivial = a fixed pair carried over / dropped by a change of the parameter list')
+        'at the net dictionary; non-trivial = a fixed pair carried over / dropped by a change of the parameter list. '
+        'Library ODE models (plain SBML / PKPD with administration and dosing regimen, parameters renamed by the user; '
+        'harness/refsim.py as solver) as ReducedMechanisticModel and inside a LogLikelihood: same histories, sensitivities '
+        'left on / off before the fix calls, first evaluation before or after the first fix call')
 ASSUMPTIONS = ['the wrapped evaluation is an arbitrary function of the full parameter vector (theorem '
                'C08_eval_substitution is parametric in it)',
                'dict semantics: last binding of a key wins; unknown names are ignored',
                'when the parameter list of a wrapped population model changes (number of individuals), the fixed '
                'name-value pairs whose names are still parameters stay fixed, the others are forgotten '
-               '(C08_resized_history assumes distinct parameter names and that a change of the list changes its length)']
+               '(C08_resized_history assumes distinct parameter names and that a change of the list changes its length)',
+               'library ODE models: harness/refsim.py stands in for the native solver; the simulator state machine '
+               '(lean/ChiModel/ReducedSim.lean: new simulator on every sensitivity request, protocol set again, request by '
+               'public name) is proved about but not driven through the correspondence (C08_sens_columns_are_free assumes '
+               'distinct public names)']
 
 
 # ----------------------------------------------------------------------------------------------
@@ -170,7 +179,7 @@ class MechAdapter(Adapter):
         except Exception:
             pass
         out['value'] = self.obj.simulate(free, self.times)
-        self._seen = np.array(self.inner.last_parameters, float)
+        self._seen = self.seen_now()
         if self.flip:
             # leave the sensitivities switched on for the next fix / release call
             try:
@@ -178,6 +187,9 @@ class MechAdapter(Adapter):
             except ValueError:
                 pass
         return out
+
+    def seen_now(self):
+        return np.array(self.inner.last_parameters, float)
 
     def ref_evals(self, full, mask):
         self.ref.enable_sensitivities(False)
@@ -189,6 +201,89 @@ class MechAdapter(Adapter):
 
     def full_seen(self):
         return self._seen
+
+
+# ----------------------------------------------------------------------------------------------
+# mechanistic models that are ODE systems from the model library (SBMLModel / PKPDModel): route of
+# administration, dosing regimen, user-defined parameter names.  harness/refsim.py stands in for the absent
+# native solver (installed in run()).  The reference is always a FRESH unfixed model of the same recipe.
+# ----------------------------------------------------------------------------------------------
+def gen_lib_recipe(rng):
+    which = ['pk1', 'pk1', 'pk1', 'koch', 'koch_reparametrised'][int(rng.integers(5))]
+    rec = {'model': which, 'administration': None, 'regimen': None, 'regimen_set_through_wrapper': False,
+           'renamed': {}}
+    if which == 'pk1':
+        rec['administration'] = [None, 'direct', 'direct', 'depot'][int(rng.integers(4))]
+        if rec['administration'] is not None and rng.random() < 0.8:
+            reg = {'dose': float(rng.uniform(2.0, 20.0)), 'start': float(rng.choice([0.0, 0.25, 0.5, 1.0])),
+                   'duration': float(rng.choice([0.05, 0.1, 0.5])), 'period': None, 'num': None}
+            if rng.random() < 0.5:
+                reg['period'] = float(rng.choice([1.0, 1.5, 2.0]))
+                reg['num'] = None if rng.random() < 0.4 else int(rng.integers(1, 4))
+            rec['regimen'] = reg
+            rec['regimen_set_through_wrapper'] = bool(rng.random() < 0.3)
+    rec['rename_p'] = [0.0, 0.0, 0.5, 1.0][int(rng.integers(4))]
+    rec['rename_tag'] = 'N%d' % int(rng.integers(100))
+    rec['rename_draws'] = [float(x) for x in rng.random(8)]
+    return rec
+
+
+def lib_model(chi, rec, regimen=True):
+    from chi.library import ModelLibrary
+    lib = ModelLibrary()
+    if rec['model'] == 'pk1':
+        m = lib.one_compartment_pk_model()
+        if rec['administration'] is not None:
+            m.set_administration('central', direct=rec['administration'] == 'direct')
+    elif rec['model'] == 'koch':
+        m = lib.tumour_growth_inhibition_model_koch()
+    else:
+        m = lib.tumour_growth_inhibition_model_koch_reparametrised()
+    ren = {n: '%s_%d' % (rec['rename_tag'], j) for j, n in enumerate(m.parameters())
+           if rec['rename_draws'][j % 8] < rec['rename_p']}
+    if ren:
+        m.set_parameter_names(ren)
+    rec['renamed'] = ren
+    if regimen and rec['regimen'] is not None:
+        m.set_dosing_regimen(**rec['regimen'])
+    return m
+
+
+class LibMechAdapter(MechAdapter):
+    """ReducedMechanisticModel around a library ODE model (plain SBML or PKPD with a route of administration
+    and a dosing regimen; parameters under their SBML names or renamed by the user)"""
+    kind = 'ReducedMechanisticModel/library-model'
+    rtol = 1e-6
+    no_zero = True          # a compartment of size zero has no concentration
+    eval_first_p = 0.6      # some lives start with fix calls before anything was evaluated
+
+    def __init__(self, chi, rng):
+        rec = self.recipe = gen_lib_recipe(rng)
+        through = rec['regimen_set_through_wrapper']
+        self.inner = lib_model(chi, rec, regimen=not through)
+        self.ref = lib_model(chi, rec)
+        self.obj = chi.ReducedMechanisticModel(self.inner)
+        if through and rec['regimen'] is not None:
+            self.obj.set_dosing_regimen(**rec['regimen'])
+        self.times = np.sort(rng.choice(np.arange(1, 21) * 0.25, int(rng.integers(1, 5)), replace=False))
+        self.kind = 'ReducedMechanisticModel/library-model/' + lib_kind(rec)
+        if rng.random() < 0.4:
+            self.obj.enable_sensitivities(True)     # switched on by the user before anything else happens
+
+    def mech_names(self):
+        return list(self.ref.parameters())
+
+    def tag_kind(self):
+        return 'ReducedMechanisticModel.library_model'
+
+    def seen_now(self):
+        return None
+
+
+def lib_kind(rec):
+    return '%s%s%s%s' % (rec['model'], '' if rec['administration'] is None else '+' + rec['administration'],
+                         '+regimen' if rec['regimen'] is not None else '',
+                         '+renamed' if rec['renamed'] else '')
 
 
 def pop_models(chi, rng):
@@ -475,6 +570,37 @@ class LLAdapter(Adapter):
                 'grad': np.asarray(g)[mask]}
 
 
+class LibLLAdapter(LLAdapter):
+    """LogLikelihood over a library ODE model (see LibMechAdapter), handed in bare or already wrapped"""
+    kind = 'LogLikelihood/library-model'
+    rtol = 1e-6
+    no_zero = True
+    eval_first_p = 0.6
+
+    def __init__(self, chi, rng):
+        rec = self.recipe = gen_lib_recipe(rng)
+        rec['regimen_set_through_wrapper'] = False
+        idx = int(rng.integers(4))
+        times = np.sort(rng.choice(np.arange(1, 21) * 0.25, int(rng.integers(1, 5)), replace=False))
+        obs = rng.uniform(0.5, 3.0, len(times))
+        wrapped = bool(rng.random() < 0.3)
+
+        def build(wrap):
+            m = lib_model(chi, rec)
+            if wrap:
+                m = chi.ReducedMechanisticModel(m)
+            return chi.LogLikelihood(m, em_classes(chi)[idx](), list(obs), list(times))
+        self.obj, self.ref = build(wrapped), build(False)
+        self._mech = list(lib_model(chi, rec).parameters())
+        self.kind = 'LogLikelihood/library-model/' + lib_kind(rec)
+
+    def mech_names(self):
+        return list(self._mech)
+
+    def tag_kind(self):
+        return 'LogLikelihood.library_model'
+
+
 class SharedLLAdapter(LLAdapter):
     """the likelihood is built from ingredients the caller keeps using: reduced wrappers (some with a
     parameter fixed beforehand — that fix is the first call of the history) handed to a SIBLING likelihood as
@@ -702,13 +828,15 @@ class ControllerAdapter(Adapter):
                 'sample': self.ref_pred.sample(full, self.times, n_samples=2, seed=5, return_df=False)}
 
 
-def all_mech_fixed(names, net):
-    mech = [n for n in names if n.startswith('psi')]
+def all_mech_fixed(names, net, ad=None):
+    mech = ad.mech_names() if hasattr(ad, 'mech_names') else [n for n in names if n.startswith('psi')]
     return bool(mech) and all(n in net for n in mech)
 
 
 ADAPTERS = [ErrAdapter, MechAdapter, PopAdapter, LLAdapter, PredAdapter, PopPredAdapter, SharedLLAdapter,
             ControllerAdapter]
+LIB_ADAPTERS = [LibMechAdapter, LibLLAdapter]
+N_LIB = {'quick': 80, 'thorough': 600}
 
 
 # ----------------------------------------------------------------------------------------------
@@ -720,7 +848,7 @@ def gen_history(rng, names, ad, length):
         d = []
         for j in chosen:
             val = None if rng.random() < 0.35 else ad.draw(rng, names[j])
-            if val is not None and rng.random() < 0.08:
+            if val is not None and rng.random() < 0.08 and not getattr(ad, 'no_zero', False):
                 val = 0.0          # a parameter fixed at zero is fixed (zero is not "no value")
             d.append((names[j], val))
         if rng.random() < 0.15:
@@ -828,14 +956,14 @@ def compare(ctx, ad, ops_so_far, rng, inp, net=None, segs=None):
         g = got[label]
         if isinstance(g, str):
             # sensitivities cannot be requested when every mechanistic parameter is fixed (#22)
-            ctx.spec(TAG22 if all_mech_fixed(names, net) else 'C08.grad_raises/' + tk,
+            ctx.spec(TAG22 if all_mech_fixed(names, net, ad) else 'C08.grad_raises/' + tk,
                      False, inp, {'raised': g})
             continue
         if label.startswith('names'):
             ctx.spec('C08.%s/%s' % (label, tk), list(g) == list(w), inp,
                      {'reported': list(g), 'expected': list(w)})
             continue
-        ok = core.close(np.asarray(g, float), np.asarray(w, float))
+        ok = core.close(np.asarray(g, float), np.asarray(w, float), rtol=getattr(ad, 'rtol', 1e-9))
         ctx.spec('C08.%s/%s' % (label, tk), ok, inp,
                  {'reduced': np.asarray(g, float), 'unfixed_at_substituted': np.asarray(w, float)})
 
@@ -853,7 +981,10 @@ def run_history(ctx, chi, A, rng, length, ops=None):
     shape = history_shape(pre + ops)
     ctx.case(ad.kind + '/' + shape, nontrivial=(ad.kind.split('/')[0] + '/' + shape)
              if ('refix' in shape or 'release' in shape) else False, sample=inp)
-    compare(ctx, ad, pre, rng, dict(inp, step=0))
+    if not hasattr(ad, 'eval_first_p') or rng.random() < ad.eval_first_p:
+        compare(ctx, ad, pre, rng, dict(inp, step=0))
+    else:
+        inp['first_evaluation_after_the_first_fix_call'] = True
     for k in range(len(ops)):
         if hasattr(ad, 'rename') and rng.random() < 0.25:
             # the dimensions are renamed between two fix calls: all names change, positions stay; the
@@ -872,15 +1003,15 @@ def run_history(ctx, chi, A, rng, length, ops=None):
         except Exception as e:  # noqa
             # a history whose step raises: #22 (fix_parameters while sensitivities are on and every
             # mechanistic parameter ends up fixed) or some other defect
-            is22 = all_mech_fixed(names, net_of(pre + ops[:k + 1])) and 'None of the parameters' in str(e)
-            ctx.spec(TAG22 if is22 else 'C08.fix_raises/' + ad.kind.split('/')[0], False,
+            is22 = all_mech_fixed(names, net_of(pre + ops[:k + 1]), ad) and 'None of the parameters' in str(e)
+            ctx.spec(TAG22 if is22 else 'C08.fix_raises/' + ad.tag_kind(), False,
                      dict(inp, step=k + 1), {'raised': repr(e)[:200]})
             return
         if rng.random() < 0.3:
             try:
                 ad.disturb_copy(rng)
             except Exception as e:  # noqa
-                ctx.spec('C08.copy_raises/' + ad.kind.split('/')[0], False, dict(inp, step=k + 1), {'raised': repr(e)[:200]})
+                ctx.spec('C08.copy_raises/' + ad.tag_kind(), False, dict(inp, step=k + 1), {'raised': repr(e)[:200]})
         compare(ctx, ad, pre + ops[:k + 1], rng, dict(inp, step=k + 1))
 
 
@@ -1000,6 +1131,10 @@ def run(ctx):
         rng = ctx.sub_rng(100000 + i)
         ctx.guard(run_resized_life, ctx, chi, PopResizeAdapter, rng,
                   int(rng.integers(1, 13 if ctx.tier == 'thorough' else 9)))
+    refsim.install()
+    for i in range(N_LIB[ctx.tier]):
+        rng = ctx.sub_rng(200000 + i)
+        ctx.guard(run_history, ctx, chi, LIB_ADAPTERS[i % len(LIB_ADAPTERS)], rng, int(rng.integers(1, 5)))
     if ctx.tier == 'thorough':
         exhaustive(ctx, chi)
 
